@@ -133,6 +133,13 @@ func init() {
 				for i, d := range c08drv.Drivers(2) {
 					items = append(items, Item{Name: "fine/2threads/" + d.Name, MaxDevs: 1, Run: c08Scenario(i, 2, true)})
 				}
+				// quick: two preemptions anywhere, on the smallest driver (what every execution shares — contexts, paths,
+				// issue lists — is exercised by it; a window that needs the other thread to come back needs two)
+				for i, d := range c08drv.Drivers(2) {
+					if strings.HasPrefix(d.Name, "1 ") {
+						items = append(items, Item{Name: "fine-two-preemptions/2threads/" + d.Name, MaxDevs: 2, Run: c08Scenario(i, 2, true)})
+					}
+				}
 			}
 			if tier == "thorough" {
 				for i, d := range c08drv.Drivers(2) {
